@@ -51,10 +51,12 @@ func (c *Ctx) add(status, key, pos, detail string, path ...string) *Obligation {
 	return o
 }
 
-func (c *Ctx) ok(key, pos, detail string)                  { c.add("discharged", key, pos, detail) }
-func (c *Ctx) bad(key, pos, detail string, path ...string) { c.add("violated", key, pos, detail, path...) }
-func (c *Ctx) undecided(key, detail string)                { c.add("undecided", key, "", detail) }
-func (c *Ctx) note(format string, a ...any)                { c.Notes = append(c.Notes, fmt.Sprintf(format, a...)) }
+func (c *Ctx) ok(key, pos, detail string) { c.add("discharged", key, pos, detail) }
+func (c *Ctx) bad(key, pos, detail string, path ...string) {
+	c.add("violated", key, pos, detail, path...)
+}
+func (c *Ctx) undecided(key, detail string) { c.add("undecided", key, "", detail) }
+func (c *Ctx) note(format string, a ...any) { c.Notes = append(c.Notes, fmt.Sprintf(format, a...)) }
 
 // check records ok/bad depending on cond.
 func (c *Ctx) check(cond bool, key, pos, okDetail, badDetail string, path ...string) bool {
@@ -267,24 +269,24 @@ func finish(prop, tier, verifDir string, start time.Time, r *propResult) int {
 		keys[o.Key] = true
 	}
 	cov := map[string]any{
-		"explanation":             r.explain,
-		"obligations":             len(r.obs),
-		"discharged":              nOK,
-		"known_findings":          nKnown,
-		"violated":                nBad,
-		"undecided":               nUndec,
+		"explanation":              r.explain,
+		"obligations":              len(r.obs),
+		"discharged":               nOK,
+		"known_findings":           nKnown,
+		"violated":                 nBad,
+		"undecided":                nUndec,
 		"distinct_obligation_keys": len(keys),
 		"min_obligations_expected": r.minObs,
 		"reference_keys_vanished":  vanished,
-		"configurations":          r.configs,
-		"functions_with_bodies":   r.funcs,
-		"ssa_blocks":              r.blocks,
-		"ssa_instructions":        r.instrs,
-		"anchors":                 uniq(r.anchors),
-		"notes":                   uniq(r.notes),
-		"obligation_list":         r.obs,
-		"samples":                 samples,
-		"checker_cmd":             fmt.Sprintf("bin/trzszlint check %s --tier %s", prop, tier),
+		"configurations":           r.configs,
+		"functions_with_bodies":    r.funcs,
+		"ssa_blocks":               r.blocks,
+		"ssa_instructions":         r.instrs,
+		"anchors":                  uniq(r.anchors),
+		"notes":                    uniq(r.notes),
+		"obligation_list":          r.obs,
+		"samples":                  samples,
+		"checker_cmd":              fmt.Sprintf("bin/trzszlint check %s --tier %s", prop, tier),
 		"trusted_base": []string{"go/types and go/ssa of golang.org/x/tools v0.29.0", "go list export data of the default toolchain",
 			"the rule tables frozen in /verif/checker (exception tables with reasons)", "/repo builds with the tags the checker loads"},
 		"exhaustive": false,
